@@ -131,10 +131,13 @@ def run(cx):
     suspects = []
     nrun = 0
     n_known_ctxtext = 0
+    ndead = nall = 0
     for r_ in vlib.read_ndjson(sout):
         res = r_["res"]
+        nall += 1
         if res.get("k") not in ("ok", "hang") and not judge(res, bound):
             cx.notes.append("scenario %s: driver result %s" % (r_["id"], str(res)[:150]))
+            ndead += 1
             continue
         nrun += 1
         if res.get("err") == "ctxtext" and res.get("msg") in KNOWN_CTXTEXT:
@@ -142,6 +145,7 @@ def run(cx):
         why = judge(res, bound)
         if why:
             suspects.append((r_["id"], why))
+    cx.alive(ndead, nall, "cancellation scenarios")
     # quorum: a suspect scenario is re-run 3 times alone (less parallelism, longer settle)
     if suspects:
         # one representative per (main form or spawn, kind of observation) first; at most 24 re-executions x 3
